@@ -197,7 +197,14 @@ def expected(spec):
                 if in_frame:
                     attrs['REPRESENTATION-CODE'] = {'count': 1, 'rc': 15, 'units': '', 'vals': ['i%d' % DT_RC[dt]]}
                     attrs['DIMENSION'] = {'count': len(dim), 'rc': 18, 'units': '', 'vals': ['i%d' % d for d in dim]}
-                    attrs['ELEMENT-LIMIT'] = {'count': len(dim), 'rc': 18, 'units': '', 'vals': ['i%d' % d for d in dim]}
+                    if attrs['ELEMENT-LIMIT'] is None:       # an element limit the user assigned stays as assigned
+                        attrs['ELEMENT-LIMIT'] = {'count': len(dim), 'rc': 18, 'units': '', 'vals': ['i%d' % d for d in dim]}
+                else:
+                    # a channel outside every frame: dimension and element limit default to each other
+                    if attrs['ELEMENT-LIMIT'] is None and attrs['DIMENSION'] is not None:
+                        attrs['ELEMENT-LIMIT'] = dict(attrs['DIMENSION'])
+                    elif attrs['DIMENSION'] is None and attrs['ELEMENT-LIMIT'] is not None:
+                        attrs['DIMENSION'] = dict(attrs['ELEMENT-LIMIT'])
                 if attrs['LONG-NAME'] is None:
                     attrs['LONG-NAME'] = {'count': 1, 'rc': 20, 'units': '', 'vals': ['t' + hx(o['name'])]}
             if o['kind'] in ('parameter', 'computation'):
